@@ -374,10 +374,14 @@ func c10(c *Ctx) {
 						c.R.Violate(caseID, "client-violations-differ", "", rp)
 					}
 				case sc.Custom:
-					// the client can only carry *Error or a fallback text: assert the status/body are recoverable
+					// the client can only carry *Error or a fallback text; either way the caller must be
+					// able to recover the status and the message/body ("E_LOOKUP" is in both encodings)
 					txt := fmt.Sprint(ce["text"])
 					if ce["class"] == "other" && !strings.Contains(txt, "500") {
 						c.R.Violate(caseID, "client-fallback-lacks-status", "", rp)
+					}
+					if !strings.Contains(txt, "E_LOOKUP") && !strings.Contains(fmt.Sprint(ce["message"]), "E_LOOKUP") {
+						c.R.Violate(caseID, "client-error-lost-body", fmt.Sprint(ce["class"]), rp)
 					}
 				default:
 					if ce["class"] != "error" {
@@ -453,6 +457,48 @@ func c10(c *Ctx) {
 			}
 		}
 		gs.Stop()
+	}
+	// ---- Go client against servers whose error hook rewrites status/body ----
+	for _, hk := range []struct {
+		Hook, WantClass, WantText string
+		Status                    int
+	}{{"status-msg", "error", "hook422", 422}, {"status400-msg", "error|other", "hook400 not-a-validation-error", 400}, {"msg", "error", "hook:", 500}} {
+		hs, err := serveGo(ch, []string{pkg + ".ErrService"}, hk.Hook, false)
+		if err != nil {
+			c.R.Harness("cannot serve: " + err.Error())
+			break
+		}
+		for _, ctl := range []struct{ Label, CT string }{{"json", "application/json"}, {"x-protobuf", "application/x-protobuf"}} {
+			caseID := fmt.Sprintf("err/go-client/hook=%s/handler-plain-error/%s", hk.Hook, ctl.Label)
+			if !c.Want(caseID) {
+				continue
+			}
+			hs.Script("", map[string]any{"err": map[string]any{"kind": "plain", "message": "boom"}})
+			out, err := callGo(ch, pkg+".ErrService", hs.URL, "Do", pkg+".DoReq", wire(validDo(doMD)), map[string]any{"ct": ctl.CT, "chelpers": []map[string]string{{"K": "X-Key", "V": "k"}}})
+			c.R.Eval(1)
+			if err != nil {
+				c.R.Inconclusive(caseID, "call:"+err.Error())
+				continue
+			}
+			rp := map[string]any{"proto": protoText, "hook": hk.Hook, "content_type": ctl.CT, "client_return": out.Ret}
+			for _, e := range out.byKind("wire") {
+				rp["wire_status"] = e["status"]
+				rp["wire_response_body"] = string(unb64(e.Str("resp_body")))
+			}
+			ce := oasM(out.Ret["err"])
+			switch {
+			case ce == nil:
+				c.R.Violate(caseID, "client-returned-no-error", "", rp)
+			case !strings.Contains("|"+hk.WantClass+"|", "|"+fmt.Sprint(ce["class"])+"|"):
+				c.R.Violate(caseID, "client-error-type", fmt.Sprint(ce["class"]), rp)
+			case !strings.Contains(fmt.Sprint(ce["message"]), hk.WantText) && !strings.Contains(fmt.Sprint(ce["text"]), hk.WantText):
+				c.R.Violate(caseID, "client-error-lost-body", fmt.Sprint(ce["class"]), rp)
+			case ce["class"] == "other" && !strings.Contains(fmt.Sprint(ce["text"]), fmt.Sprint(hk.Status)):
+				c.R.Violate(caseID, "client-fallback-lacks-status", "", rp)
+			}
+			c.R.Decided(caseID)
+		}
+		hs.Stop()
 	}
 	// ---- TS server error surfacing ----
 	if node != nil && tsServer != "" {
